@@ -85,7 +85,7 @@ theorem splitSign_digit (d : Nat) (hd : d < 10) (r : Str) :
 theorem pyIntOfStr_fmtInt (T : Tables) (hT : T.OK) (w : Nat) (i : Int) (hfit : intFits T i = true)
     (hw : w ≤ T.maxDigits) : pyIntOfStr T (fmtInt w i) = some i := by
   have hfit' : i.natAbs < 10 ^ T.maxDigits := by simpa [intFits] using hfit
-  have hm := hT.2.2.2.2
+  have hm : 1 ≤ T.maxDigits := by have := hT.2.2.2.2.1; omega
   by_cases hi : i < 0
   · rw [fmtInt_neg w i hi]
     unfold pyIntOfStr
